@@ -1,5 +1,7 @@
 NOTE_COMMON = ('trusted base: the simulator (sim/sim_core.cpp scheduler, lock model, clock), SimBus and the independent reference codec/models; '
-               'glib and libyaml uninstrumented; reader-preferring rwlocks; sampling of schedules/fault sequences, not enumeration')
+               'glib and libyaml uninstrumented; reader-preferring rwlocks; sampling of schedules/fault sequences, not enumeration; '
+               'every run draws a scheduler policy (random walk / PCT / sticky / starvation), optionally function-entry preemption, a time grid that makes timer-driven '
+               'library threads and application tasks runnable at the same instants, and a descheduling fault at lock / unlock points (simulated time passes)')
 
 CHECKS = {
     'C01': {
@@ -64,7 +66,9 @@ CHECKS = {
                 'every configured id x every aspect / every speed -126..126 and out of range / every function bit, plus unknown ids, undefined aspects and disconnected boards, '
                 'run while the receiver and auto-flush threads are scheduled at random. An independent config->message reference (own speed and function-group encoding, own '
                 'function-bit history) gives the exact expected downlink messages per accepted call; a rejected call must add nothing to the wire and leave bidib_get_state '
-                'unchanged; optimistic state is compared with the reference after each call.',
+                'unchanged; optimistic state is compared with the reference after each call. Aspect ids are generated as prefix chains in one configuration of three and unknown '
+                'ids as near misses of configured ones. Phases of 2-4 tasks issue train commands concurrently: the downlink must then be explained by ONE serial order of the '
+                'commands against the same reference (search over assignments respecting program order), and the final state must equal the model.',
         'ref': 'DESIGN.md section 3 C09', 'note': NOTE_COMMON + '; the values are generated per run, the history dependence (function bits, direction at speed 0, address changes after re-login) is what the simulation adds',
         'technique': 'deterministic simulation: command histories against SimBus with topology events + config->message reference model on the wire',
     },
@@ -78,7 +82,8 @@ CHECKS = {
     },
     'C20': {
         'text': 'Seeded configurations (features and initial values on any subset of boards, accessories and trains) x node trees with any subset of the configured boards present, '
-                'boards answering feature requests with the requested or another value, delayed and chunked answers, spontaneous occupancy traffic during the dialogue, and a system '
+                'boards answering feature requests with the requested or another value, delayed and chunked answers, a slow node whose feature confirmations are 2-4.5 s late while more '
+                'FEATURE_SETs than one response budget are pending, spontaneous occupancy traffic during the dialogue, and a system '
                 'reset later in the session (answers are never lost here: the start-up dialogue has no timeout and would rightly wait). The complete decoded downlink transcript of every start-up / reset dialogue is checked against a transcript model: features only to their '
                 'connected board and before SYS_ENABLE, every connected track output switched on, then every initial aspect exactly once and every initial train function once per '
                 'connected track output with the encoding of the high-level command, nothing for absent boards.',
@@ -90,9 +95,12 @@ CHECKS = {
                 'scheduler with three detectors: a ThreadSanitizer build in which the baton hand-off is invisible and all harness code is bracketed by ignore annotations, so only '
                 'the library\'s own locks create happens-before and an unsynchronised access pair is reported although the run is serialised; a lock-contract monitor generated '
                 'from the \'Shall only be called with ...\' comments of the current tree (armed only between start and stop); and an atomicity oracle (entity updates derive all '
-                'fields from one counter, getter results must be internally consistent; unique queue messages are read exactly once).',
+                'fields from one counter, getter results must be internally consistent; unique queue messages are read exactly once). In addition: an Eraser-style lockset monitor on '
+                'every GLib container call made by the library (GLib is not instrumented, so neither TSan nor the contract monitor sees inside g_queue_* / g_hash_table_* / '
+                'g_array_*); a focus mode in which readers hammer the single getter of one entity while the bus keeps changing exactly that entity; and 22 % of the runs use the '
+                'concurrent train-command workload of C09 with its serial-order oracle (lost updates without any data race).',
         'ref': 'DESIGN.md section 3 C10', 'note': NOTE_COMMON + '; preemption at synchronisation points and function entries, not at every instruction (TSan compensates for races, nothing does for a torn update inside one function body between two plain accesses)',
-        'technique': 'deterministic simulation: seeded scheduler + ThreadSanitizer with invisible baton + generated lock-contract monitor + atomicity oracle',
+        'technique': 'deterministic simulation: seeded scheduler + ThreadSanitizer with invisible baton + generated lock-contract monitor + GLib-container lockset monitor + atomicity / serial-order oracles',
     },
     'C11': {
         'text': 'Seeded search over every public call x argument classes (valid, unknown id, NULL, disconnected, undefined aspect, out of range), every uplink type incl. node '
@@ -104,7 +112,8 @@ CHECKS = {
     },
     'C12': {
         'text': 'Hostile uplink streams (random, mutated, grammar-generated CRC-valid packets with adversarial length/address/type/field values, oversized frames) in debug and '
-                'normal mode against generated configurations, under ASan/UBSan with deterministic fill patterns; then a liveness probe: a known-good packet must still be processed.',
+                'normal mode against generated configurations, incl. single messages close to the 255-byte maximum, under ASan/UBSan with deterministic fill patterns; then a liveness '
+                'probe: a known-good packet must still be processed. A receiver that spins without reaching a scheduling point is reported by a CPU-time monitor outside the simulation.',
         'ref': 'DESIGN.md section 3 C12', 'note': NOTE_COMMON,
         'technique': 'deterministic simulation: line-noise / adversarial-frame injection + sanitizers + bounded-liveness probe',
     },
@@ -112,14 +121,16 @@ CHECKS = {
         'text': 'Seeded structure-aware mutations of generated valid configuration triples, raw noise, and file faults (missing file, truncation at byte k, EIO after k bytes) on the '
                 'in-memory file layer; the start runs the real threads against the simulated interface on simulated time and the whole stop path on error. Oracles: returns 0/1 '
                 '(deadlock, self-deadlock and unbounded wait are decided by the scheduler, not by a timeout), sanitizers, locks released, threads joined, configuration FILE closed, '
-                'library-attributed live heap back to the warm-up level, and a following start with the valid configuration works. The input-generation part is ordinary generation; '
+                'library-attributed live heap back to the warm-up level, and a following start with the valid configuration works; a parser loop that never reaches a scheduling point '
+                'is reported by a CPU-time monitor outside the simulation (12 s of CPU time without a scheduling step). The input-generation part is ordinary generation; '
                 'the simulation contributes threads, time, the file faults and the lock/heap/thread bookkeeping.',
         'ref': 'DESIGN.md section 3 C13', 'note': NOTE_COMMON,
         'technique': 'deterministic simulation: in-memory file layer with faults + lock/thread/heap bookkeeping around start/stop',
     },
     'C15': {
         'text': 'Seeded node trees (nested interfaces, unknown ids, absent boards), node-table changes in the middle of the start-up enumeration and afterwards sequences of '
-                'node-lost / node-new notices incl. interfaces with children and re-login at another address; a connectivity model driven by the same notices is compared with the '
+                'node-lost / node-new notices incl. interfaces with children, re-login at another address and repeated notices; an unconfigured hub with configured boards beneath it '
+                'logging in while another sub-interface is enumerated (triggered by the protocol event, not by a time); a connectivity model driven by the same notices is compared with the '
                 'connectivity getters after every notice, the acknowledgement must be on the wire when the notice is known processed, and commands go to the model\'s current '
                 'address of connected boards only.',
         'ref': 'DESIGN.md section 3 C15', 'note': NOTE_COMMON,
@@ -129,13 +140,15 @@ CHECKS = {
         'text': 'Seeded sequences of 2-5 sessions in one process (debug / pointer / simulated serial device / silent interface / unopenable device / missing configuration file, '
                 'auto-flush on or off, stop-while-stopped, start-while-running) with activity in between. Oracles: start result, shutdown transcript, thread create/join '
                 'bookkeeping with never-reused synthetic handles (a stale join is detected, not executed), exact library-attributed live-heap accounting after every stop, and '
-                'equality of the last session with a reference copy of itself run on process-start static state.',
+                'equality of the last session with a reference copy of itself run on process-start static state (transcripts, packet boundaries and getter results exactly in runs '
+                'without scheduling faults; multiset of messages per destination in runs with descheduling / starvation).',
         'ref': 'DESIGN.md section 3 C16', 'note': NOTE_COMMON,
         'technique': 'deterministic simulation: multi-session histories + thread/heap bookkeeping + fresh-state differential',
     },
     'C19': {
         'text': 'Seeded worlds with Secure-ACK enabled / disabled / absent per board, occupancy reports of all four kinds from several boards interleaved with sender tasks, '
-                'optionally while the reporting board is stalled; every report of a SecAck board must produce exactly one mirror with the same payload, in order, already on '
+                'optionally while the reporting board is stalled, with MULTIPLE windows up to the last detector and a task that consumes (and frees) the message queue meanwhile; '
+                'every report of a SecAck board must produce exactly one mirror with the same payload, in order, already on '
                 'the wire when the report is known processed (no flush by the application, auto-flush off) unless a stall impedes it; other boards never receive mirrors.',
         'ref': 'DESIGN.md section 3 C19', 'note': NOTE_COMMON,
         'technique': 'deterministic simulation: SimBus report events + wire oracle at the moment of known processing',
